@@ -229,6 +229,17 @@ def _finish_path(h, E, st, kind, sig, err, tb, validate_every, npaths):
     values = None
     if kind in ('unsupported', 'budget'):
         st['inconclusive'].append({'harness': h.name, 'what': kind, 'detail': err})
+        if kind == 'unsupported':
+            # the shadow values cannot follow the code on this path (int() of a symbolic real, a C routine ...): nothing is claimed for it symbolically,
+            # but the path's model is still a concrete input of the real code - replay it; a failure there is a reproduced violation
+            try:
+                values = E.path_model_values()
+            except BaseException:   # noqa
+                values = None
+            conc = run_concrete(h, values) if values is not None else None
+            if conc is not None and _concrete_failure(conc):
+                _escalate(h, E, st, conc, values, 'symbolic run unsupported (%s); concrete replay of the path\'s model' % str(err)[:80])
+            return
     if kind == 'timeout':
         # the real code did not come back on this path: confirm with a concrete run of the same inputs under a (shorter) wall-clock limit
         values = E.path_model_values()
